@@ -292,6 +292,10 @@ func ruleDistance(r *Run, p string) {
 				})
 				if okDel {
 					r.Ok(p+".DEF", "def:"+name+":acc", site, "batch element i = Calculate(queries[i], target) of the same implementation (checked above)")
+					if strings.Contains(name, "cosine") {
+						// the clamp of the element-wise kernel is the batch's clamp
+						r.Ok(p+".CLAMP", "clamp:"+name, site, "the batch delegates to Calculate element-wise: its clamp applies")
+					}
 					okLen := false
 					allInstrs(fn, func(in ssa.Instruction) {
 						if mk, ok := in.(*ssa.MakeSlice); ok && NewCanon(w).S(mk.Len) == "len(P1)" {
